@@ -33,7 +33,6 @@ def seq_sig(f, u, ret_lifetime=True):
 
 
 def prep_get_line(f, u):
-    seq_sig(f, u)
     n = 0
     n += f.rewrite(r'self\.source\.len\(\)', 'verif_arc_len(&self.source)', expect=1)
     n += f.rewrite(r'self\.source\.as_bytes\(\)', 'verif_arc_as_bytes(&self.source)', expect=1)
@@ -77,7 +76,6 @@ def prep_slice_body(g, u):
 
 
 def prep_slice_wrapper(f, u):
-    seq_sig(f, u)
     t = f.text
     m = re.search(r'self\.get_line\(line\)\.and_then\(\|line\| \{', t)
     if not m:
@@ -130,12 +128,13 @@ def build(u):
         prep_from_string(f)
         u.count('R-trait-inherent')
     guarded(u, 'sourceview::SourceView::clone', lambda: u.get_fn(S, 'clone', impl=r'Clone for SourceView\b'), prep_clone, wrap=lambda: ('impl SourceView {', '}'))
-    emit_method(u, S, r'SourceView\b', 'get_line', 'sourceview::SourceView::get_line', prep=lambda f: prep_get_line(f, u))
-    emit_method(u, S, r'SourceView\b', 'line_count', 'sourceview::SourceView::line_count', prep=lambda f: seq_sig(f, u, ret_lifetime=False))
-    emit_method(u, S, r'SourceView\b', 'lines', 'sourceview::SourceView::lines', prep=lambda f: seq_sig(f, u, ret_lifetime=False))
+    # R-seq on the signature is a sig_prep: it must also reach the signature-only stub an item falls back to when its body cannot be brought under contract
+    emit_method(u, S, r'SourceView\b', 'get_line', 'sourceview::SourceView::get_line', prep=lambda f: prep_get_line(f, u), sig_prep=lambda f: seq_sig(f, u))
+    emit_method(u, S, r'SourceView\b', 'line_count', 'sourceview::SourceView::line_count', sig_prep=lambda f: seq_sig(f, u, ret_lifetime=False))
+    emit_method(u, S, r'SourceView\b', 'lines', 'sourceview::SourceView::lines', sig_prep=lambda f: seq_sig(f, u, ret_lifetime=False))
     guarded(u, 'sourceview::SourceView::get_line_slice__body', lambda: outline_slice_body(u), lambda g: prep_slice_body(g, u),
             wrap=lambda: ('impl SourceView {', '}'))
-    emit_method(u, S, r'SourceView\b', 'get_line_slice', 'sourceview::SourceView::get_line_slice', prep=lambda f: prep_slice_wrapper(f, u))
+    emit_method(u, S, r'SourceView\b', 'get_line_slice', 'sourceview::SourceView::get_line_slice', prep=lambda f: prep_slice_wrapper(f, u), sig_prep=lambda f: seq_sig(f, u))
     # R-trait-inherent: Iterator::next of Lines as an inherent method (no clauses of its own on an impl of an external trait)
     guarded(u, 'sourceview::Lines::next', lambda: u.get_fn(S, 'next', impl=r"<'a> Iterator for Lines<'a>"), lambda f: u.count('R-trait-inherent'),
             wrap=lambda: ("impl<'a> Lines<'a> {", '}'))
